@@ -41,6 +41,13 @@ def run(prog, rep, tier):
     r10_5(prog, rep)
     shared.dtype_narrowing(prog, rep, "R10.6", fns={"formulae.terms.terms.GroupSpecificTerm.eval_new_data", "formulae.terms.variable.Variable.eval_new_data_categoric", "formulae.terms.call.Call.eval_new_data_categoric", "formulae.matrices.GroupEffectsMatrix.evaluate_new_data"})
     r10_7(prog, rep)
+    # "unseen" is decided against the levels OBSERVED in the frame: a box over plain / unordered data takes its levels from the
+    # values that occur (a declared-but-unused category of the new frame is no level: the box would refuse the frame before
+    # the policy is consulted).  C04's R4.3, box obligations, reported here as R10.8
+    from . import C04
+    from ..core import reuse_rule
+    reuse_rule(rep, C04.r4_3, "R10.8", prog, keep=lambda it: "CategoricalBox" in it.get("function", ""))
+    rep.floor("R10.8", 1)
     rep.floor("R10.1", 6)
     rep.floor("R10.2", 8)
     rep.floor("R10.3", 10)
